@@ -714,7 +714,7 @@ fn parse_wellformed_type(tokens: &mut Tokens) -> Result<ValueType, Error>
 {
 	let start = tokens.start_location_span();
 	let value_type = parse_inner_type(tokens)?;
-	if value_type.is_wellformed()
+	if value_type.is_wellformed() && !value_type.has_arraylike_element()
 	{
 		Ok(value_type)
 	}
